@@ -239,7 +239,7 @@ def inline_closures(text, fn_id, names, log):
     return text
 
 
-def _split_top_commas(t):
+def _split_call_args(t):
     out, depth, cur = [], 0, ""
     for ch in t:
         if ch in "([{<":
@@ -275,7 +275,7 @@ def inline_helpers(text, item, fn_id, known, log):
             if depth == 0:
                 break
             e += 1
-        params = _split_top_commas(src[k + 1:e])
+        params = _split_call_args(src[k + 1:e])
         b = src.index("{", e)
         depth, f = 0, b
         while True:
@@ -305,7 +305,7 @@ def inline_helpers(text, item, fn_id, known, log):
                 if depth == 0:
                     break
                 z += 1
-            args = _split_top_commas(rest[a + 1:z])
+            args = _split_call_args(rest[a + 1:z])
             if len(args) != len(params):
                 raise LostAnchor("%s: call of helper %s with %d argument(s), %d parameter(s)" % (fn_id, name, len(args), len(params)))
             lets = "".join("let %s = %s; " % (q, x) for q, x in zip(params, args))
